@@ -132,6 +132,8 @@ def main() -> int:
             known_samples.setdefault(k, v)
         if r["violation"] is not None:
             path = core.write_replay(prop, r["cell"], r["violation"])
+            if any(v[1] == path for v in violations):
+                continue
             violations.append((r["cell"], path, "[%s] %s" % (r["violation"]["kind"], r["violation"]["message"])))
         if r["error"] is not None:
             errors.append((r["cell"], r["error"]["message"]))
